@@ -28,6 +28,13 @@ type Config struct {
 	MaxDepth  int
 	// GlobalLen: known lengths of package-level slices (from their literal initialisers).
 	GlobalLen map[string]int64
+	// SymLoops: loops of the target function itself are not unrolled; each is
+	// cut at its header: entering it from outside replaces the loop-carried
+	// values by symbols φ<block>.<k> (recorded as events with their initial
+	// values), and reaching the header again over a back edge ends the path
+	// with the outcome next-iteration(<new loop-carried values>).  One path
+	// therefore describes one iteration for an arbitrary iteration count.
+	SymLoops bool
 }
 
 type deferred struct {
@@ -63,11 +70,18 @@ type state struct {
 	seenCall map[string]ssa.Instruction
 	closures map[*Term]*ssa.MakeClosure
 	cloEnv   map[*Term][]*Term
+
+	pendingBack *Term
+	typeCount   map[string]int
 }
 
 func (s *state) clone() *state {
 	n := &state{heap: make(map[string]hent, len(s.heap)), val: make(map[string]bool, len(s.val)), nextID: s.nextID,
-		seenCall: make(map[string]ssa.Instruction, len(s.seenCall)), closures: s.closures, cloEnv: s.cloEnv}
+		seenCall: make(map[string]ssa.Instruction, len(s.seenCall)), closures: s.closures, cloEnv: s.cloEnv, pendingBack: s.pendingBack,
+		typeCount: make(map[string]int, len(s.typeCount))}
+	for k, v := range s.typeCount {
+		n.typeCount[k] = v
+	}
 	for k, v := range s.heap {
 		n.heap[k] = v
 	}
@@ -107,6 +121,16 @@ func pathHasPrefix(p, pre []string) bool {
 		}
 	}
 	return true
+}
+
+// localRoot names a fresh local object by its static type and the number of
+// objects of that type created so far on this path (stable under renaming
+// of locals and under unrelated edits).
+func (s *state) localRoot(kind string, t types.Type) string {
+	ts := typeShort(t)
+	n := s.typeCount[ts]
+	s.typeCount[ts] = n + 1
+	return fmt.Sprintf("%s<%s>#%d", kind, ts, n)
 }
 
 func (s *state) hset(l *Loc, t *Term) {
@@ -228,6 +252,132 @@ type walker struct {
 	paths []*Path
 	work  []*state
 	over  bool
+	forks int
+}
+
+// loopBlocks returns the natural loop of a header.
+func loopBlocks(h *ssa.BasicBlock) map[*ssa.BasicBlock]bool {
+	in := map[*ssa.BasicBlock]bool{h: true}
+	var stack []*ssa.BasicBlock
+	for _, p := range h.Preds {
+		if h.Dominates(p) && !in[p] {
+			in[p] = true
+			stack = append(stack, p)
+		}
+	}
+	for len(stack) > 0 {
+		b := stack[len(stack)-1]
+		stack = stack[:len(stack)-1]
+		for _, p := range b.Preds {
+			if !in[p] {
+				in[p] = true
+				stack = append(stack, p)
+			}
+		}
+	}
+	return in
+}
+
+// havocLoop forgets, on entry to a symbolic loop, the contents of every
+// object defined outside the loop that the loop body may write: after an
+// unknown number of iterations nothing is known about them.
+func (w *walker) havocLoop(s *state, fr *frame, h *ssa.BasicBlock) {
+	blocks := loopBlocks(h)
+	rootOf := func(v ssa.Value) ssa.Value {
+		for i := 0; i < 30; i++ {
+			switch x := v.(type) {
+			case *ssa.FieldAddr:
+				v = x.X
+			case *ssa.IndexAddr:
+				v = x.X
+			case *ssa.Slice:
+				v = x.X
+			case *ssa.ChangeType:
+				v = x.X
+			case *ssa.Convert:
+				v = x.X
+			case *ssa.MakeInterface:
+				v = x.X
+			default:
+				return v
+			}
+		}
+		return v
+	}
+	hav := func(v ssa.Value) {
+		r := rootOf(v)
+		if in, ok := r.(ssa.Instruction); ok && blocks[in.Block()] {
+			if _, isPhi := r.(*ssa.Phi); !isPhi {
+				return // created inside the loop body
+			}
+		}
+		t, ok := fr.env[r]
+		if _, isG := r.(*ssa.Global); isG {
+			t, ok = w.val(s, fr, r), true
+		}
+		if !ok || t.Op != "&" {
+			return
+		}
+		s.hset(&Loc{Root: t.Loc.Root, Path: t.Loc.Path, Len: -1}, mk(fmt.Sprintf("havoc@L%d", loopOrdinal(h)), defaultOrLocal(t.Loc)))
+	}
+	for b := range blocks {
+		for _, in := range b.Instrs {
+			switch x := in.(type) {
+			case *ssa.Store:
+				hav(x.Addr)
+			case *ssa.MapUpdate:
+				hav(x.Map)
+			case ssa.CallInstruction:
+				c := x.Common()
+				if bi, ok := c.Value.(*ssa.Builtin); ok {
+					if bi.Name() == "copy" {
+						hav(c.Args[0])
+					}
+					continue
+				}
+				if c.IsInvoke() {
+					hav(c.Value)
+				}
+				for _, a := range c.Args {
+					switch a.Type().Underlying().(type) {
+					case *types.Pointer, *types.Slice, *types.Map, *types.Interface:
+						hav(a)
+					}
+				}
+			}
+		}
+	}
+}
+
+func defaultOrLocal(l *Loc) *Term {
+	d := defaultContent(l)
+	if d.Op == "zero" {
+		return mk("local")
+	}
+	return d
+}
+
+// loopOrdinal numbers the loop headers of a function in block order.
+func loopOrdinal(h *ssa.BasicBlock) int {
+	n := 0
+	for _, b := range h.Parent().Blocks {
+		if b == h {
+			return n
+		}
+		if isLoopHeader(b) {
+			n++
+		}
+	}
+	return n
+}
+
+func isLoopHeader(b *ssa.BasicBlock) bool {
+	for _, p := range b.Preds {
+		if b.Dominates(p) {
+			return true
+		}
+	}
+	return false
 }
 
 // Walk enumerates the paths of fn.
@@ -243,7 +393,7 @@ func Walk(cfg *Config, fn *ssa.Function) []*Path {
 	}
 	w := &walker{cfg: cfg, fn: fn}
 	st := &state{heap: map[string]hent{}, val: map[string]bool{}, seenCall: map[string]ssa.Instruction{},
-		closures: map[*Term]*ssa.MakeClosure{}, cloEnv: map[*Term][]*Term{}}
+		closures: map[*Term]*ssa.MakeClosure{}, cloEnv: map[*Term][]*Term{}, typeCount: map[string]int{}}
 	fr := &frame{id: 0, fn: fn, env: map[ssa.Value]*Term{}, visits: map[*ssa.BasicBlock]int{}}
 	for _, prm := range fn.Params {
 		fr.env[prm] = paramTerm(prm)
@@ -280,6 +430,8 @@ func (w *walker) finish(s *state, p *Path) {
 		if strings.HasPrefix(e.loc.Root, "P:") || strings.HasPrefix(e.loc.Root, "G:") || strings.HasPrefix(e.loc.Root, "T:") {
 			k := defaultContent(e.loc).String()
 			p.Final[k] = s.content(e.t)
+		} else if w.cfg.SymLoops {
+			p.Final[e.loc.key()] = s.content(e.t)
 		}
 	}
 	w.paths = append(w.paths, p)
@@ -297,6 +449,47 @@ func (w *walker) enter(s *state, fr *frame, b *ssa.BasicBlock) bool {
 	fr.visits[b]++
 	if fr.visits[b] > w.cfg.MaxVisits {
 		return false
+	}
+	if w.cfg.SymLoops && len(s.frames) == 1 && fr.prev != nil && isLoopHeader(b) {
+		back := b.Dominates(fr.prev)
+		var vals []*Term
+		k := 0
+		for _, in := range b.Instrs {
+			phi, ok := in.(*ssa.Phi)
+			if !ok {
+				break
+			}
+			idx := -1
+			for i, p := range b.Preds {
+				if p == fr.prev {
+					idx = i
+				}
+			}
+			if idx < 0 {
+				return false
+			}
+			v := w.val(s, fr, phi.Edges[idx])
+			vals = append(vals, w.renderForCompare(s, v))
+			if !back && k == 0 {
+				w.havocLoop(s, fr, b)
+			}
+			if !back {
+				sym := mk(fmt.Sprintf("φL%d.%d", loopOrdinal(b), k))
+				if v.Op == "&" {
+					sym = v // references stay references (loop-invariant pointers)
+				} else {
+					s.events = append(s.events, fmt.Sprintf("loop L%d: %s starts as %s", loopOrdinal(b), sym, v))
+				}
+				fr.env[phi] = sym
+			}
+			k++
+			fr.pc++
+		}
+		if back {
+			s.pendingBack = mk(fmt.Sprintf("next-iteration@L%d", loopOrdinal(b)), vals...)
+			return true
+		}
+		return true
 	}
 	// phis: simultaneous assignment
 	var vals []*Term
@@ -646,6 +839,12 @@ func (w *walker) run(s *state) {
 			return
 		}
 		fr := s.frames[len(s.frames)-1]
+		if s.pendingBack != nil {
+			t := s.pendingBack
+			s.pendingBack = nil
+			w.finish(s, &Path{Outcome: []*Term{t}})
+			return
+		}
 		if fr.pc >= len(fr.block.Instrs) {
 			w.giveUp(s, "fell off a block")
 			return
@@ -661,15 +860,13 @@ func (w *walker) run(s *state) {
 			if arr, ok := x.Type().Underlying().(*types.Pointer).Elem().Underlying().(*types.Array); ok {
 				n = arr.Len()
 			}
-			s.nextID++
-			fr.env[x] = refTerm(&Loc{Root: fmt.Sprintf("A%d", s.nextID), Len: n, NonNil: true})
+			fr.env[x] = refTerm(&Loc{Root: s.localRoot("A", x.Type().Underlying().(*types.Pointer).Elem()), Len: n, NonNil: true})
 		case *ssa.MakeSlice:
 			n := int64(-1)
 			if c := w.val(s, fr, x.Len); c.IsConst() {
 				n, _ = constant.Int64Val(c.C)
 			}
-			s.nextID++
-			l := &Loc{Root: fmt.Sprintf("M%d", s.nextID), Len: n, NonNil: true}
+			l := &Loc{Root: s.localRoot("M", x.Type()), Len: n, NonNil: true}
 			fr.env[x] = refTerm(l)
 			if n != 0 {
 				s.hset(l, mk("zero"))
@@ -871,6 +1068,12 @@ func (w *walker) run(s *state) {
 				break
 			}
 			// fork
+			w.forks++
+			if w.forks > 60000 || len(w.work) > 4000 {
+				w.giveUp(s, "fork budget exceeded (a loop with a symbolic bound is being unrolled: make the callee opaque or use SymLoops)")
+				w.work = nil
+				return
+			}
 			other := s.clone()
 			ofr := other.frames[len(other.frames)-1]
 			other.lits = append(other.lits, Lit{atom, !pol == false})
